@@ -568,7 +568,7 @@ class ManifestContext:
         for item in errors:
             code, pos = item
             if isinstance(pos, int):
-                drop_seg = int(pos, 10)
+                drop_seg = pos
             else:
                 tm = availabilityStartTime.replace(
                     hour=pos.hour, minute=pos.minute, second=pos.second)
